@@ -32,7 +32,12 @@ def run(c):
         "without a reason would use up the runner's sync.Once with a nil error and is not generated",
         "the DMARC policy outcome is a parameter of the model (property C07 decides it); the harness produces each outcome "
         "through the real verifier with mock DNS records",
-        "goroutine completion orders are permuted by seeded delays inside the scripted checks (not enumerated); the theorem "
+        "whether a call on a modifier group fails is a parameter of the model (Cfg.mf: modifiers are external - table "
+        "look-ups, signing); where the calls sit between the check groups and what a failure leaves behind (checkedRcpts, the "
+        "state objects, the key set of rcptModifiersState = the destination blocks of the body stage) is mirrored; non-failing "
+        "modifiers are identities (address rewriting is not modelled); a temporary and a permanent failure are the same to "
+        "the model (the harness checks that the modifier's own error comes back)",
+                "goroutine completion orders are permuted by seeded delays inside the scripted checks (not enumerated); the theorem "
         "covers every permutation, the differential runs check that the real outcome does not depend on the delays",
         "the iteration order of Go maps (destination blocks at the body stage, deliveries) is not controlled: what depends "
         "on it (which destination-only checks saw the body before another one refused it; in a nest op the flag the outer "
@@ -55,7 +60,14 @@ def run(c):
         "one (own 1-4 scripted checks in its own global / source / destination blocks, own DMARC setting, own 1-3 recording "
         "targets of which half refuse quarantined messages) used as a target of 1-3 destination blocks of the first, alone or "
         "next to its own targets, with a quarantine by a check or the DMARC policy of the outer pipeline in every second of "
-        "them - the oracle demands the flag at every target behind the nested pipeline; each case is run on the REAL MsgPipeline the way the SMTP endpoint "
+        "them - the oracle demands the flag at every target behind the nested pipeline; every modifier group of the "
+        "pipeline (global, source block, each destination block) holds a scripted modifier and in 35% of the single-level "
+        "cases some of its calls FAIL (op token m=: RewriteSender of the global / source group, RewriteRcpt of the global / "
+        "source / the recipient's block's group for chosen recipients, RewriteBody of any group; temporary 4xx or permanent "
+        "5xx error), favoured: one recipient of a destination block accepted, a LATER recipient (another address) of the SAME "
+        "block failing in the block's own RewriteRcpt (or any later recipient failing in the global / source group), further "
+        "recipients following, DATA sent, a check of the earlier recipient's block rejecting / quarantining the body - the "
+        "oracle keeps demanding that verdict; each case is run on the REAL MsgPipeline the way the SMTP endpoint "
         "(Body) and the LMTP endpoint (BodyNonAtomic, then Commit) drive it, again with two other delay assignments, and "
         "with every ignore verdict removed; every run is compared with the Lean model (command replies, per-recipient "
         "results, quarantine flag, hand-overs seen by the targets, per-state call logs) and judged by the oracle written "
